@@ -207,7 +207,8 @@ let predict (c : string) (obs : string) : string * string * bool =
            let has_unl = List.exists (fun p -> String.length p >= 4 && String.sub p 0 4 = "unl:") (split '+' spec) in
            let fin_seen = prem > 0 || cb > 0 and next_false = nextbad > 0 in
            let ok, why =
-             if total < 0 then
+             if has_unl && total <> -1 then (false, "shs:unstarted-schedule-with-an-unlimited-part-does-not-report-unknown-left")
+             else if total < 0 then
                (if not has_unl then (false, "shs:finite-schedule-reports-unknown-left")
                 else if shared_seen_ok_b (within = 1) fin_seen next_false then (true, "")
                 else if fin_seen then (false, "shs:instance-told-finished-before-the-shared-schedule-ended")
